@@ -340,6 +340,10 @@ func ruleTail(m *evalModel, r *Report, rule string) {
 				} else {
 					r.bad(rule, m.EVAL, construct, ret.Pos(), "closure result returned outside the try form")
 				}
+			case callee == nil && !c.Call.IsInvoke() && types.Identical(c.Call.Value.Type().Underlying(), m.EVAL.Signature):
+				// a function value of the evaluator's own type (the evaluator a closure carries): a nested evaluation
+				n++
+				r.bad(rule, m.EVAL, construct, ret.Pos(), "a form is handed to an evaluator held in a function value and its value returned: the tail position is evaluated by recursion, one host frame per iteration")
 			case callee == nil && !c.Call.IsInvoke():
 				n++
 				if region == "<application>" || region == "try" {
@@ -428,6 +432,29 @@ func (m *evalModel) scopeKindOf(v ssa.Value) (scopeKind, *ssa.Call) {
 	case *ssa.Extract:
 		if c, ok := x.Tuple.(*ssa.Call); ok && x.Index == 0 {
 			call = c
+		}
+		// one of several results of a function of the evaluator's package that evaluates nothing: the scope it
+		// hands back for a closure (nil where it fails)
+		if c, ok := x.Tuple.(*ssa.Call); ok && x.Index > 0 && c.Call.StaticCallee() != nil && (m.formSplitter(c.Call.StaticCallee()) || m.helperOf(c.Call.StaticCallee()) != nil) {
+			kind, n := scUnknown, 0
+			for _, rt := range m.allReturns(c.Call.StaticCallee()) {
+				if x.Index >= len(rt) {
+					return scUnknown, nil
+				}
+				v := rt[x.Index]
+				if isNilConst(v) {
+					continue
+				}
+				k, _ := m.scopeKindOf(v)
+				if (k != scClosureChild && k != scFreshChild) || (n > 0 && k != kind) {
+					return scUnknown, nil
+				}
+				kind = k
+				n++
+			}
+			if n > 0 {
+				return kind, c
+			}
 		}
 	case *ssa.Parameter:
 		// a scope parameter of an evaluation helper stands for the arguments at its call sites
@@ -775,17 +802,56 @@ func ruleLookupOrder(w *World, r *Report, e *Engine) {
 			r.undecided("C01.lookup-order", nil, name, token.NoPos, "method no longer resolves")
 			continue
 		}
+		// (an exported method that only forwards to an unexported one of the same receiver is that method)
+		fn = forwardTarget(fn)
 		// the comma-ok lookup in the receiver's own map
 		var okVal ssa.Value
-		for _, b := range fn.Blocks {
-			for _, in := range b.Instrs {
-				if lk, ok := in.(*ssa.Lookup); ok && lk.CommaOk {
-					if ld, ok := lk.X.(*ssa.UnOp); ok {
-						if fa, ok := ld.X.(*ssa.FieldAddr); ok && fa.X == ssa.Value(fn.Params[0]) {
-							for _, ref := range *lk.Referrers() {
-								if ex, ok := ref.(*ssa.Extract); ok && ex.Index == 1 {
-									okVal = ex
+		ownPresence := func(g *ssa.Function) (ssa.Value, bool) {
+			for _, b := range g.Blocks {
+				for _, in := range b.Instrs {
+					if lk, ok := in.(*ssa.Lookup); ok && lk.CommaOk {
+						if ld, ok := lk.X.(*ssa.UnOp); ok {
+							if fa, ok := ld.X.(*ssa.FieldAddr); ok && len(g.Params) > 0 && fa.X == ssa.Value(g.Params[0]) {
+								for _, ref := range *lk.Referrers() {
+									if ex, ok := ref.(*ssa.Extract); ok && ex.Index == 1 {
+										return ex, true
+									}
 								}
+							}
+						}
+					}
+				}
+			}
+			return nil, false
+		}
+		if v, ok := ownPresence(fn); ok {
+			okVal = v
+		} else {
+			// ... or a helper on the same receiver that does the lookup and hands back the presence flag
+			for _, b := range fn.Blocks {
+				for _, in := range b.Instrs {
+					c, ok := in.(*ssa.Call)
+					if !ok || c.Call.StaticCallee() == nil || len(c.Call.Args) == 0 || c.Call.Args[0] != ssa.Value(fn.Params[0]) {
+						continue
+					}
+					g := c.Call.StaticCallee()
+					if g.Pkg != fn.Pkg || len(g.Blocks) == 0 {
+						continue
+					}
+					pv, ok := ownPresence(g)
+					if !ok {
+						continue
+					}
+					for _, rt := range (&evalModel{}).returns(g) {
+						ret := rt[0].(*ssa.Return)
+						for ri, rv := range ret.Results {
+							if resolveRet(rv) != pv {
+								continue
+							}
+							if len(ret.Results) == 1 {
+								okVal = c
+							} else if ex := extractOf(c, ri); ex != nil {
+								okVal = ex
 							}
 						}
 					}
@@ -1289,6 +1355,14 @@ func ruleDef(m *evalModel, r *Report) {
 			calls = append(calls, ec)
 		}
 	}
+	if len(calls) == 0 {
+		// the whole arm lives in a helper of the evaluator called from this region only
+		for _, ec := range m.evalCalls() {
+			if rs := m.regionSet(ec.call.Block()); ec.fn != m.EVAL && m.helperOf(ec.fn) != nil && len(rs) == 1 && rs["def"] {
+				calls = append(calls, ec)
+			}
+		}
+	}
 	if !r.check(len(calls) == 1 && calls[0].callee == m.EVAL, "C01.def", m.EVAL, "evaluating calls in the def region", token.NoPos, "exactly one (the value operand)", "def does not evaluate exactly one form") {
 		return
 	}
@@ -1356,17 +1430,36 @@ func ruleDef(m *evalModel, r *Report) {
 			r.undecided("C01.def", nil, name, token.NoPos, "method no longer resolves")
 			continue
 		}
-		okRet := true
-		for _, rt := range m.returns(fn) {
-			v := rt[1].(ssa.Value)
-			if v == ssa.Value(fn.Params[2]) {
-				continue
+		// returnsValue: every return of g hands back parameter vi, directly or as the result of a function of the
+		// package that is handed that parameter and returns it in turn (Set -> SetNT -> set)
+		var returnsValue func(g *ssa.Function, vi int, depth int) bool
+		returnsValue = func(g *ssa.Function, vi int, depth int) bool {
+			if depth > 3 || vi >= len(g.Params) || len(g.Blocks) == 0 {
+				return false
 			}
-			if c, ok := v.(*ssa.Call); ok && c.Call.StaticCallee() != nil && c.Call.StaticCallee().Name() == "SetNT" && c.Call.Args[2] == ssa.Value(fn.Params[2]) {
-				continue
+			n := 0
+			for _, rt := range m.returns(g) {
+				n++
+				v := resolveRet(rt[1].(ssa.Value))
+				if v == ssa.Value(g.Params[vi]) {
+					continue
+				}
+				if c, ok := v.(*ssa.Call); ok && c.Call.StaticCallee() != nil && c.Call.StaticCallee().Pkg == g.Pkg {
+					found := false
+					for ai, a := range c.Call.Args {
+						if a == ssa.Value(g.Params[vi]) && returnsValue(c.Call.StaticCallee(), ai, depth+1) {
+							found = true
+						}
+					}
+					if found {
+						continue
+					}
+				}
+				return false
 			}
-			okRet = false
+			return n > 0
 		}
+		okRet := returnsValue(fn, 2, 0)
 		r.check(okRet, "C01.def", fn, "return value", fn.Pos(), "the value parameter", "Set does not return the value it was given")
 	}
 }
@@ -2279,4 +2372,75 @@ func bindingCallValue(c *ssa.Call) (ssa.Value, bool) {
 		}
 	}
 	return nil, false
+}
+
+// forwardTarget: a function whose whole body hands its parameters, in order, to one function of its package and
+// returns that call's results is, for the rules, the function it forwards to (GetNT -> get).
+func forwardTarget(fn *ssa.Function) *ssa.Function {
+	for depth := 0; depth < 3 && fn != nil && len(fn.Blocks) == 1; depth++ {
+		var call *ssa.Call
+		ok := true
+		for _, in := range fn.Blocks[0].Instrs {
+			switch x := in.(type) {
+			case *ssa.Call:
+				if call != nil {
+					ok = false
+				}
+				call = x
+			case *ssa.Extract, *ssa.DebugRef:
+			case *ssa.Return:
+				for _, rv := range x.Results {
+					switch y := rv.(type) {
+					case *ssa.Extract:
+						if y.Tuple != ssa.Value(call) {
+							ok = false
+						}
+					default:
+						if rv != ssa.Value(call) {
+							ok = false
+						}
+					}
+				}
+			default:
+				ok = false
+			}
+		}
+		if !ok || call == nil {
+			return fn
+		}
+		g := call.Call.StaticCallee()
+		if g == nil || g.Pkg != fn.Pkg || len(g.Blocks) == 0 || len(call.Call.Args) != len(fn.Params) {
+			return fn
+		}
+		for i, a := range call.Call.Args {
+			if a != ssa.Value(fn.Params[i]) {
+				return fn
+			}
+		}
+		fn = g
+	}
+	return fn
+}
+
+// allReturns: the result values of every return of fn (cells of named results resolved).
+func (m *evalModel) allReturns(fn *ssa.Function) [][]ssa.Value {
+	var out [][]ssa.Value
+	if fn == nil {
+		return nil
+	}
+	for _, b := range fn.Blocks {
+		if len(b.Instrs) == 0 || b == fn.Recover {
+			continue
+		}
+		ret, ok := b.Instrs[len(b.Instrs)-1].(*ssa.Return)
+		if !ok {
+			continue
+		}
+		var vs []ssa.Value
+		for _, v := range ret.Results {
+			vs = append(vs, resolveRet(v))
+		}
+		out = append(out, vs)
+	}
+	return out
 }
